@@ -1097,6 +1097,29 @@ def sexec(dm, te, rt, fuel, st, s):
         if k == 'return':
             r = ev(st, s[1])
             return None if r is None else (('r', S.convert(dm, rt, r[0])), r[1])
+        if k == 'switch':
+            r = ev(st, s[1])
+            if r is None:
+                return None
+            pt = S.promote(dm, xtype(dm, te, s[1]))
+            pv = S.convert(dm, pt, r[0])
+            items = s[2]
+            tgt = next((i for i, (lb, _x) in enumerate(items) if lb and lb[0] == 'case' and S.convert(dm, pt, lb[1]) == pv), None)
+            if tgt is None:
+                tgt = next((i for i, (lb, _x) in enumerate(items) if lb and lb[0] == 'default'), None)
+            if tgt is None:
+                return ('n', r[1])
+            st = r[1]
+            for (_lb, x) in items[tgt:]:
+                b = go(st, x)
+                if b is None:
+                    return None
+                if b[0] == 'b':
+                    return ('n', b[1])
+                if b[0] != 'n':
+                    return b
+                st = b[1]
+            return ('n', st)
         raise ValueError(k)
     try:
         return go(tuple(st), s)
@@ -1132,6 +1155,8 @@ def smap(f, s):
         return (k, smap(f, s[1]), f(s[2]))
     if k == 'for':
         return (k, smap(f, s[1]), f(s[2]), f(s[3]), smap(f, s[4]))
+    if k == 'switch':
+        return (k, f(s[1]), [(lb, smap(f, x)) for (lb, x) in s[2]])
     raise ValueError(k)
 
 
@@ -1168,6 +1193,13 @@ def render_stmt(dm, te, s, np, ind='  '):
         return ind + k + ';\n'
     if k == 'return':
         return ind + 'return %s;\n' % render(dm, s[1])
+    if k == 'switch':
+        out = ind + 'switch (%s) {\n' % render(dm, s[1])
+        for (lb, x) in s[2]:
+            if lb:
+                out += ind + ('case %d:\n' % lb[1] if lb[0] == 'case' else 'default:\n')
+            out += render_stmt(dm, te, x, np, ind + '  ')
+        return out + ind + '}\n'
     raise ValueError(k)
 
 
@@ -1196,6 +1228,9 @@ def coq_stmt(s):
         return '(SDoWhile %s %s)' % (coq_stmt(s[1]), coq_cx(s[2]))
     if k == 'for':
         return '(SFor %s %s %s %s)' % (coq_stmt(s[1]), coq_cx(s[2]), coq_cx(s[3]), coq_stmt(s[4]))
+    if k == 'switch':
+        lab = lambda lb: 'LNone' if not lb else ('(LCase %d)' % lb[1] if lb[0] == 'case' else 'LDefault')   # noqa: E731
+        return '(SSwitch %s [%s])' % (coq_cx(s[1]), '; '.join('(%s, %s)' % (lab(lb), coq_stmt(x)) for (lb, x) in s[2]))
     return {'break': 'SBreak', 'continue': 'SContinue'}.get(k) or '(SReturn %s)' % coq_cx(s[1])
 
 
@@ -1237,6 +1272,21 @@ class StmtGen:
             r = ('seq', st, r)
         return r
 
+    def item(self, avail, depth, inloop):
+        """a statement of a switch body: no declaration at its top level (a label needs a statement; no jump past an
+        initialiser); `continue` only when the enclosing loop allows it"""
+        for _ in range(10):
+            nte, ctr = len(self.te), set(self.counters)
+            st, _a = self.stmt(avail, depth, True if inloop is True else 'nocontinue')
+            first = st[1] if st[0] == 'seq' else st
+            if first[0] in ('decl', 'for'):
+                del self.te[nte:]                  # forget the locals of a rejected candidate
+                self.counters = ctr
+            # (a labelled `for (T i = ..;;)` is a known ppci defect: the declaration is hoisted in front of the label)
+            if first[0] not in ('decl', 'for'):
+                return st
+        return ('expr', self.ex(avail))
+
     def stmt(self, avail, depth, inloop):
         rng = self.rng
         r = rng.random()
@@ -1272,11 +1322,29 @@ class StmtGen:
             body = self.seq(avail + [d], depth - 1, rng.randint(1, 2), True)
             body = ('seq', ('expr', ('asg', d, ('bin', '+', ('var', d), lit(1)))), body)
             return ('seq', ('decl', d, lit(0)), ('do', body, ('bin', '<', ('var', d), lit(rng.randint(1, 3))))), avail + [d]
-        if r < 0.86 and inloop:
+        if r < 0.88:    # switch (e & 3) { case..: ... default: ... } with fall through, break, unlabelled statements
+            ctl = self.ex(avail, 1, effects=self.rng.random() < 0.3)
+            if rng.random() < 0.7:
+                ctl = ('bin', '&', ctl, lit(3))
+            labels = rng.sample([0, 1, 2, 3, 5], rng.randint(1, 3))
+            items = []
+            dpos = rng.randint(0, len(labels)) if rng.random() < 0.7 else None
+            for j, kk in enumerate(labels):
+                if dpos == j:
+                    items.append((('default',), self.item(avail, depth - 1, inloop)))
+                items.append((('case', kk), self.item(avail, depth - 1, inloop)))
+                if rng.random() < 0.4:
+                    items.append((None, self.item(avail, depth - 1, inloop)))
+                if rng.random() < 0.6:
+                    items.append((None, ('break',)))
+            if dpos == len(labels):
+                items.append((('default',), self.item(avail, depth - 1, inloop)))
+            return ('switch', ctl, items), avail
+        if r < 0.91 and inloop:
             return (('if1', self.ex(avail, 1), ('break',)) if rng.random() < 0.7 else ('break',)), avail
-        if r < 0.92 and inloop is True:
+        if r < 0.94 and inloop is True:
             return (('if1', self.ex(avail, 1), ('continue',)) if rng.random() < 0.7 else ('continue',)), avail
-        if r < 0.96:
+        if r < 0.97:
             return ('if1', self.ex(avail, 1), ('return', self.ex(avail))), avail
         return ('expr', self.ex(avail)), avail
 
@@ -1325,7 +1393,22 @@ def stmt_fragment_class(march, te, rt, d):
     return None
 
 
+def probe_for_decl_under_label(ctx):
+    """fixed witness: the declaration of `for (int i = 5; ...)` belongs to the for statement, also under a label"""
+    src = ('int f(int a0) { int s = 0; switch (a0) { case 1: s = 100; default: for (int i = 5; i < 7; i = i + 1) '
+           's = s + i; } return s; }')
+    mod, err = compile_c('x86_64', src)
+    r = run_ir('x86_64', mod, [2], fuel=300) if mod is not None else err
+    if not (isinstance(r, OkV) and r.v == 11):
+        ctx.violation({'fn': 'c_to_ir statements', 'class': 'for-init-decl-hoisted', 'key': 'stmt/for-init-decl-hoisted',
+                       'target': 'x86_64', 'source': src, 'args': [2], 'expected': 11,
+                       'actual': r.v if isinstance(r, OkV) else repr(r),
+                       'how_to_replay': 'm = ppci.api.c_to_ir(io.StringIO(source), "x86_64"); '
+                                        'tools/irsem_py.run_main(m, "f", [2], 300, (8, 65536, 16777216))'})
+
+
 def statements_model(ctx, n, n_model):
+    probe_for_decl_under_label(ctx)
     """(a) Model/CGenStmt.emit_fn_stmt == real CFG; skeleton run == irsem_py on the real IR; Coq spec == Python spec;
     (b) search: real IR vs the Python reading of Spec/CStmtSpec.v"""
     st = {'generated': 0, 'structure': 0, 'values': 0, 'spec_cross': 0, 'search_compared': 0, 'violations': 0,
@@ -1341,7 +1424,7 @@ def statements_model(ctx, n, n_model):
         dm = tg['dm']
         st['generated'] += 1
         d = smap(lambda e: desugar(dm, e), body)
-        for w in re.findall(r"'(if1|if|while|do|for|break|continue|return|decl)'", repr(body)):
+        for w in re.findall(r"'(if1|if|while|do|for|break|continue|return|decl|switch|case|default)'", repr(body)):
             st['kinds'][w] = st['kinds'].get(w, 0) + 1
         src = c_function_stmt(dm, te, np_, rt, body)
         mod, err = compile_c(march, src)
